@@ -65,6 +65,10 @@ def _expand(task):
             key = _key(canon)
             nontrivial = spec.interesting(world2) if hasattr(spec, 'interesting') else True
             out.append((key, initial, history + [op], bool(found), nontrivial, canon if len(out) % 997 == 0 else None))
+            if hasattr(spec, 'dispose'):
+                spec.dispose(world2)
+        if hasattr(spec, 'dispose'):
+            spec.dispose(world)
     return acc, out
 
 
@@ -78,6 +82,8 @@ def bfs(name, depth, acc, chunk=64, stop_on_violation_state=True):
     for initial in spec.initials():
         world = spec.build(initial)
         key = _key(spec.canon(world))
+        if hasattr(spec, 'dispose'):
+            spec.dispose(world)
         if key not in seen:
             seen.add(key)
             frontier.append((initial, []))
@@ -117,4 +123,6 @@ def replay(name, case):
     found = []
     for op in case['history']:
         found.extend(spec.apply(world, op))
+    if hasattr(spec, 'dispose'):
+        spec.dispose(world)
     return found
